@@ -818,7 +818,7 @@ def run(ck: Check) -> None:
         ck.report(f"C02:warmup-trajectory:{kind}",
                   f"in warm-up, DistributedShampoo grafting {kind} does not follow torch.optim.{kind}'s parameter trajectory "
                   f"(first deviating step {f[0] if f else '?'}, relative deviation {f[1] if f else float('nan'):.3g}; tolerance "
-                  f"{TOL_LOOSE if small.get('loose') else TOL_EXACT}); the Coq torch model {'agrees' if model_b_fine else 'DISAGREES'} with torch.optim on this case",
+                  f"{case_tol(small)}, classes {small.get('tags', ['random stream'])}); the Coq torch model {'agrees' if model_b_fine else 'DISAGREES'} with torch.optim on this case",
                   {"kind": "property-fails", "part": "warmup", "case": jsonable(small), "first_bad_step": f[0] if f else None,
                    "relative_deviation": f[1] if f else None, "n_failing_cases": len(bad_impl), "shrunk_confirmed_by_coqc": confirmed,
                    "predicate": "RunTorch.case_ok component 3: DistributedShampoo trajectory = torch.optim trajectory"})
